@@ -172,6 +172,46 @@ def run(ctx):
     ctx.decide(not bad and not truthy, 'R-BELIEF', 'D3', fg, (bad + truthy)[0] if bad or truthy else None, 'fill-default-by-is-none',
                '_fillgenerator decides "no fill given" by `is None`, not by truthiness',
                detail='a falsy but legitimate fill value (-0.0, 0) is replaced by the default: the sign bit of -0.0 is lost')
+    # no shortcut on the *value* of fill: `fill == 0` is also true for -0.0 (and 0j with a negative zero part)
+    eqs = [n for n in own_nodes(fg.node) if isinstance(n, ast.Compare) and len(n.ops) == 1 and
+           isinstance(n.ops[0], (ast.Eq, ast.NotEq, ast.In, ast.NotIn)) and
+           any(isinstance(x, ast.Name) and x.id == 'fill' for x in [n.left] + n.comparators) and
+           any(isinstance(x, ast.Constant) and isinstance(x.value, (int, float, complex)) and not isinstance(x.value, bool)
+               for c in [n.left] + n.comparators for x in ast.walk(c))]
+    ctx.decide(not eqs, 'R-BELIEF', 'D3', fg, eqs[0] if eqs else None, 'fill-no-value-shortcut',
+               '_fillgenerator takes no shortcut on the numeric value of `fill` (it is written as given)',
+               detail=f'`{norm(eqs[0]) if eqs else ""}` is also true for -0.0: a fast path for zero fill stores +0.0, a different bit pattern '
+                      f'than np.full would give')
+    # the index grid handed to fillfunc has the full shape of the chunk it fills ("index numbers along axis 0 for all
+    # dimensions"): it is created with the same shape expression as the chunk buffer, not as a broadcastable column
+    fcalls = [n for n in own_nodes(fg.node) if isinstance(n, ast.Call) and isinstance(n.func, ast.Name) and n.func.id == 'fillfunc']
+    CTORS = ('np.empty', 'np.zeros', 'np.ones', 'np.full', 'np.empty_like', 'np.zeros_like', 'np.broadcast_to', 'np.indices')
+    bufshape = None
+    for v, st in [(v, st) for nm, v, st in assignments(fg.node) if isinstance(v, ast.Call) and dotted(v.func) in CTORS]:
+        if any(isinstance(x, ast.Name) and x.id == 'dtype' for x in ast.walk(v)) and v.args:
+            bufshape = norm(v.args[0])
+    grid_ok, why = None, ''
+    for c in fcalls:
+        a = c.args[0] if c.args else None
+        if not isinstance(a, ast.Name):
+            grid_ok = grid_ok if grid_ok is not None else None
+            continue
+        ds = [v for v, _ in defs_of(fg.node, a.id) if not isinstance(_, ast.AugAssign)]
+        ctor = [v for v in ds if isinstance(v, ast.Call) and dotted(v.func) in CTORS]
+        resh = [v for v in ds if any(isinstance(x, ast.Call) and isinstance(x.func, ast.Attribute) and x.func.attr in ('reshape',) for x in ast.walk(v))
+                or any(isinstance(x, ast.Subscript) and any(isinstance(y, ast.Constant) and y.value is None for y in ast.walk(x.slice)) for x in ast.walk(v))]
+        if ctor and bufshape is not None and all(v.args and norm(v.args[0]) == bufshape for v in ctor) and not resh:
+            grid_ok = True if grid_ok is not False else False
+        elif resh or (ctor and bufshape is not None):
+            grid_ok, why = False, norm((resh or ctor)[0])[:70]
+    if grid_ok is None:
+        ctx.assume('R-FLOW', 'D3', fg, fcalls[0] if fcalls else None, 'index-grid-full-shape',
+                   'the index grid handed to fillfunc has the full shape of the chunk', detail='construction of the grid not recognised')
+    else:
+        ctx.decide(grid_ok, 'R-FLOW', 'D3', fg, fcalls[0] if fcalls else None, 'index-grid-full-shape',
+                   'the index grid handed to fillfunc is created with the full shape of the chunk buffer (index numbers of axis 0 for all dimensions)',
+                   detail=f'the grid is built as `{why}`: a broadcastable column / other shape — fill functions that use the grid\'s '
+                          f'trailing shape (cumsum along the last axis, i.shape, boolean masks) silently produce other values')
     ie = [n for n in own_nodes(fg.node) if isinstance(n, ast.IfExp) and 'fill' in names_in(n.test)]
     ok = all(norm(n.test) in ('fill is None', 'fill is not None') for n in ie) and len(ie) >= 2
     ctx.decide(ok, 'R-SIB', 'D3', fg, ie[0] if ie else None, 'fill-or-fillfunc',
